@@ -1,4 +1,5 @@
 import FgaVerif.Model.PGraph
+import FgaVerif.Proofs.PGraphBuild
 /-!
 # C17 — plain model graph: faithful, reversible, stable DOT, sound path queries
 
@@ -15,8 +16,15 @@ the all-pairs reachability matrix and the two cycle flags).  Proved for **every*
 * `path_duality` — a path from a to b exists in the graph iff one exists from b to a in the reversed
   graph, for the declarative path relation `Path`.
 
-`path_duality` is about `Path`; that gonum's `topo.PathExistsIn` (and the port's fuelled search
-`pathExistsIds`) decide `Path` is validated by the all-pairs correspondence, **not proved**.  The cycle-flag
+* `built_graph_lines_valid` — every line of a graph built from a model connects nodes that exist (ids
+  below the number of nodes): the builder only draws lines between nodes it has created;
+* `path_query_exact`, `path_query_exact_reversed` — on such a graph the port's path query
+  (`pathExistsIds`, a fuelled breadth-first search) answers true **iff** a path exists (`Path`), and
+  likewise on the reversed graph: the search is sound, and complete because its fuel covers the potential
+  `|work| + |nodes| − |seen|`, which decreases by one per step.
+
+That gonum's `topo.PathExistsIn` gives the same answers as the port's search is validated by the
+all-pairs correspondence, **not proved** (gonum is a parameter).  The cycle-flag
 clause and DOT text stability across builds are oracle/correspondence only (gonum's Johnson cycles and DOT
 writer are parameters).
 -/
@@ -84,5 +92,48 @@ example : (reversed g0).lines = [⟨1, 0, 0, .direct, ""⟩, ⟨1, 0, 1, .ttu, "
 example : Path g0 0 1 := .step 0 1 1 ⟨⟨0, 1, 0, .direct, ""⟩, by simp [g0], rfl, rfl⟩ (.refl 1)
 example : pathExistsIds g0 0 1 = true ∧ pathExistsIds (reversed g0) 1 0 = true ∧ pathExistsIds g0 1 0 = false := by
   decide
+
+/-! ### the path query decides the path relation -/
+
+theorem path_iff_reach (g : G) (a b : Nat) : Path g a b ↔ Reach g a b := by
+  constructor
+  · intro h
+    induction h with
+    | refl a => exact Reach.refl a
+    | step a b c hl _ ih =>
+      -- prepend one line to a reachability proof
+      have hs : Succ g a b := (succ_iff_line g a b).2 hl
+      have pre : ∀ {x y : Nat}, Reach g x y → ∀ w, Succ g w x → Reach g w y := by
+        intro x y hxy
+        induction hxy with
+        | refl => intro w hw; exact Reach.step (Reach.refl w) hw
+        | step _ hs2 ih2 => intro w hw; exact Reach.step (ih2 w hw) hs2
+      exact pre ih a hs
+  · intro h
+    induction h with
+    | refl => exact Path.refl _
+    | step _ hs ih => exact Path.snoc ih ((succ_iff_line g _ _).1 hs)
+
+theorem built_graph_lines_valid (m : FgaVerif.Model.Model) :
+    ∀ l ∈ (build m).lines, l.src < (build m).nodes.length ∧ l.dst < (build m).nodes.length :=
+  (build_lines_valid m).1
+
+/-- **the path query of a built graph answers true iff a path exists** -/
+theorem path_query_exact (m : FgaVerif.Model.Model) (a b : Nat) (ha : a < (build m).nodes.length) :
+    pathExistsIds (build m) a b = true ↔ Path (build m) a b := by
+  rw [pathExistsIds_iff (build m) (build_lines_valid m).1 a b ha, path_iff_reach]
+
+theorem reversed_lines_valid (g : G) (h : LinesValid g) : LinesValid (reversed g) := by
+  intro l hl
+  unfold reversed at hl
+  obtain ⟨l0, hl0, rfl⟩ := List.mem_map.1 hl
+  have := h l0 hl0
+  exact ⟨this.2, this.1⟩
+
+/-- the same on the reversed graph -/
+theorem path_query_exact_reversed (m : FgaVerif.Model.Model) (a b : Nat) (ha : a < (build m).nodes.length) :
+    pathExistsIds (reversed (build m)) a b = true ↔ Path (reversed (build m)) a b := by
+  rw [pathExistsIds_iff (reversed (build m)) (reversed_lines_valid _ (build_lines_valid m).1) a b (by simpa [reversed] using ha),
+    path_iff_reach]
 
 end FgaVerif.Props.C17
